@@ -151,14 +151,11 @@ func (m *Machine) binop(fr *frame, op token.Token, t types.Type, x, y value) val
 		yv := y.(Str)
 		switch op {
 		case token.ADD:
-			r := make([]*Term, 0, len(xv.R)+len(yv.R))
-			r = append(r, xv.R...)
-			r = append(r, yv.R...)
 			if xv.Opaque || yv.Opaque {
 				// the opaque part is kept as one tag describing the whole text
 				return Str{Opaque: true, OTag: xv.repr() + "+" + yv.repr()}
 			}
-			return Str{R: r}
+			return m.joinStr(xv, yv)
 		case token.EQL:
 			return m.strEq(xv, yv)
 		case token.NEQ:
@@ -320,15 +317,11 @@ func (m *Machine) conv(fr *frame, tdst, tsrc types.Type, x value) value {
 				return Str{R: r}
 			}
 			if eb != nil && eb.Kind() == types.Uint8 {
-				bs := make([]byte, len(s))
+				bs := make([]*Term, len(s))
 				for i, e := range s {
-					t := e.(*Term)
-					if !t.IsConst() {
-						panic(unsupported("string([]byte) with symbolic bytes"))
-					}
-					bs[i] = byte(t.U)
+					bs[i] = e.(*Term)
 				}
-				return mkStr(string(bs))
+				return m.bytesToStr(bs)
 			}
 		}
 		return x
